@@ -114,6 +114,8 @@ pub enum DiscFault {
   Unknown,
   /// a string that is not a disclosure
   Garbage(u8),
+  /// an issued disclosure with base64 padding appended (`=`, `==`): as presented it hashes to no signed digest
+  Padded(u16),
 }
 
 pub const GARBAGE: [&str; 9] = [
@@ -204,6 +206,12 @@ pub enum SdHash {
   NoTrailingTilde,
   Garbage,
   Absent,
+  /// the right digest string with its last character removed (a proper prefix of the expected value)
+  DigestTruncated,
+  /// the empty string (a prefix of every digest)
+  DigestEmpty,
+  /// the right digest string followed by one more character
+  DigestExtended,
 }
 
 #[derive(Debug, Clone, PartialEq, Serialize, Deserialize)]
@@ -526,6 +534,12 @@ fn present_disclosures(discs: &[Disc], fault: DiscFault, salt_seed: u32, obs: &m
         }
       };
       list[k] = Presented { text, genuine: None };
+    }
+    DiscFault::Padded(sel) if n >= 1 => {
+      let k = at(sel, n);
+      let pad = if sel & 1 == 0 { "=" } else { "==" };
+      obs.label("disclosure-padded");
+      list[k] = Presented { text: format!("{}{pad}", list[k].text), genuine: None };
     }
     DiscFault::Unknown => {
       obs.label("disclosure-unknown");
@@ -933,14 +947,21 @@ fn check_kb(case: &KbCase, obs: &mut Obs) -> CheckResult {
     SdHash::NoTrailingTilde => Some(format!("{jwt}~{}", disclosures.join("~"))),
     SdHash::Garbage => Some("garbage".to_string()),
     SdHash::Absent => None,
+    // the right text; the digest string itself is edited below
+    SdHash::DigestTruncated | SdHash::DigestEmpty | SdHash::DigestExtended => Some(format!("{jwt}~{}~", disclosures.join("~"))),
   };
+  let digest_edited = matches!(case.sd_hash, SdHash::DigestTruncated | SdHash::DigestEmpty | SdHash::DigestExtended);
   let library_text = format!("{jwt}~{}~", disclosures.join("~"));
   match &hashed_text {
     Some(t) if *t == library_text => {}
     Some(t) if *t == expected_text => v.set("sd-hash-specification-layout-without-disclosures", None),
     _ => v.set("sd-hash", Some(false)),
   }
+  if digest_edited {
+    v.set("sd-hash", Some(false));
+  }
   let zero_disclosure_layout = match &hashed_text {
+    _ if digest_edited => None,
     Some(t) if disclosures.is_empty() && *t == library_text => Some("join"),
     Some(t) if disclosures.is_empty() && *t == expected_text => Some("spec"),
     _ => None,
@@ -1021,7 +1042,12 @@ fn check_kb(case: &KbCase, obs: &mut Obs) -> CheckResult {
   if let Some(n) = nonce_claim {
     claims.insert("nonce".into(), json!(n));
   }
-  let sd_hash_value = hashed_text.as_deref().map(digest_of);
+  let sd_hash_value = hashed_text.as_deref().map(digest_of).map(|digest| match case.sd_hash {
+    SdHash::DigestTruncated => digest[..digest.len().saturating_sub(1)].to_string(),
+    SdHash::DigestEmpty => String::new(),
+    SdHash::DigestExtended => format!("{digest}A"),
+    _ => digest,
+  });
   if let Some(h) = &sd_hash_value {
     claims.insert("sd_hash".into(), json!(h));
   }
@@ -1253,6 +1279,8 @@ fn cred_alternatives() -> Vec<Alt<CredCase>> {
     DiscFault::ForgeSalt(0),
     DiscFault::ForgeName(0),
     DiscFault::ForgeName(u16::MAX),
+    DiscFault::Padded(0),
+    DiscFault::Padded(u16::MAX),
     DiscFault::Unknown,
   ] {
     a.push(ca("disclosures", move |c| c.fault = f));
@@ -1410,6 +1438,9 @@ fn kb_alternatives() -> Vec<Alt<KbCase>> {
     SdHash::NoTrailingTilde,
     SdHash::Garbage,
     SdHash::Absent,
+    SdHash::DigestTruncated,
+    SdHash::DigestEmpty,
+    SdHash::DigestExtended,
   ] {
     a.push(ka("sd-hash", move |c| c.sd_hash = h));
   }
@@ -1654,6 +1685,7 @@ fn fault_strategy() -> impl Strategy<Value = DiscFault> {
     1 => any::<u16>().prop_map(DiscFault::ForgeSalt),
     1 => any::<u16>().prop_map(DiscFault::ForgeName),
     1 => Just(DiscFault::Unknown),
+    1 => any::<u16>().prop_map(DiscFault::Padded),
     1 => (0u8..GARBAGE.len() as u8).prop_map(DiscFault::Garbage),
   ]
 }
@@ -1819,6 +1851,9 @@ fn kb_case_strategy() -> impl Strategy<Value = Case> {
       1 => Just(SdHash::NoTrailingTilde),
       1 => Just(SdHash::Garbage),
       1 => Just(SdHash::Absent),
+      1 => Just(SdHash::DigestTruncated),
+      1 => Just(SdHash::DigestEmpty),
+      1 => Just(SdHash::DigestExtended),
     ],
     claim_option_strategy(),
     claim_option_strategy(),
